@@ -97,7 +97,10 @@ class Run:
         def _mark(idx: int, *outs: Any) -> None:
             st = getattr(run.marks, "cur", None)
             if st is not None:
-                st["marks"].append((idx, len(nodemod.exec_nodes)))
+                tbl = getattr(nodemod, "exec_nodes", None)
+                if not isinstance(tbl, dict):
+                    raise HarnessError("tawazi.node.node.exec_nodes is not available: cannot map call sites to node ids")
+                st["marks"].append((idx, len(tbl)))
 
         def _pause(idx: int, what: str) -> None:
             run.sim.ev("describe_pause", env_name, idx, what)
